@@ -602,6 +602,19 @@ class C15(Check):
         self.brd.attach(self.rec, PM.computechi2, '__init__', label='computechi2.__init__', init=True, every=2)   # vlib/brd.py
         self.brd.attach(self.rec, PC.pcomp, '__init__', label='pcomp.__init__', init=True, every=2)
         self.rec.wrap(S1, 'pca_solve')
+        # open finding F-P4 is keyed by its mechanism: scipy's kmeans hands back fewer centroids than asked for (it drops empty
+        # clusters) and HMF.iterate() goes on with a g of the wrong shape.  Observed at kmeans' own boundary, per case.
+        import scipy.cluster.vq as VQ
+        self._kmeans_short = False
+
+        def kmeans_seen(a, k, r):
+            try:
+                want = a[1] if len(a) > 1 else k.get('k_or_guess')
+                if isinstance(want, (int, np.integer)) and np.asarray(r[0]).shape[0] < int(want):
+                    self._kmeans_short = True
+            except Exception:
+                pass
+        self.rec.wrap(VQ, 'kmeans', label='scipy.cluster.vq.kmeans', result=kmeans_seen)
         self._saved = install_contracts(H)
         self.margins = {}
 
@@ -1143,7 +1156,20 @@ class C15(Check):
 
     # ------------------------------------------------------------------------------------------ run
     def run(self, case, out):
-        getattr(self, '_run_' + case['kind'])(case, out)
+        self._kmeans_short = False
+        try:
+            getattr(self, '_run_' + case['kind'])(case, out)
+        finally:
+            out.count('kmeans_returned_fewer_centroids_than_asked', self._kmeans_short)
+
+    def classify(self, case, out):
+        # open finding F-P4 (mechanism, not input): kmeans returned fewer than K centroids during this case and the only thing
+        # that went wrong is the exception HMF raises on the resulting shape mismatch
+        if out.fails and getattr(self, '_kmeans_short', False) and case.get('kind') == 'hmf' \
+                and all(f['clause'] == 'exception' and (f.get('detail') or {}).get('type') == 'ValueError'
+                        and 'spec1d.py' in str((f.get('detail') or {}).get('site')) for f in out.fails):
+            return 'hmf_kmeans_fewer_centroids_than_K'
+        return None
 
     def _margin(self, name, ratio):
         ratio = float(ratio)
